@@ -103,6 +103,7 @@ def explore_families(eng, fams, log=print, deadline=None):
                 if pr.get("sample") is not None and len(s["samples"]) < 3: s["samples"].append(pr["sample"])
                 for v in pr.get("violations", []): viol.append(dict(v, family=fams[r["fi"]].name))
                 if pr.get("validate") is not None: validate.append(dict(pr["validate"], family=fams[r["fi"]].name))
+                for rc in pr.get("realcheck", []): validate.append(dict(rc, family=fams[r["fi"]].name, _realcheck=True))
     return summ, viol, validate, None
 
 def partition_obligation(name, pcs, workdir):
@@ -268,6 +269,7 @@ def _main(check):
         if not allout.get(w): missing.append("global: outcome %r never reached" % w)
     # engine-vs-real differential validation on sampled concrete instances of explored paths
     K = getattr(check, "VALIDATE_K", {"quick": 40, "thorough": 200})[tier]
+    realchecks = [c for c in validate if c.get("_realcheck")]; validate = [c for c in validate if not c.get("_realcheck")]
     rnd = random.Random(seed); validate.sort(key=lambda c: json.dumps(c, sort_keys=True, default=str))
     vsel = validate if len(validate) <= K else rnd.sample(validate, K)
     nvalid = 0; valfail = None
@@ -289,6 +291,23 @@ def _main(check):
             continue
         nvalid += 1
     log("differential validation: %d sampled instances agree with the real build" % nvalid)
+    # obligations that are decided on the real build itself (clauses whose subject is code outside the encoded crates)
+    real_violations = []; nreal = 0
+    if realchecks and hasattr(check, "real_ok"):
+        KR = getattr(check, "REALCHECK_K", {"quick": 150, "thorough": 1000})[tier]
+        seenrc = set(); uniq = []
+        for c in sorted(realchecks, key=lambda c: json.dumps(c, sort_keys=True, default=str)):
+            k_ = json.dumps({k: v for k, v in c.items() if k not in ("family", "_realcheck")}, sort_keys=True, default=str)
+            if k_ not in seenrc: seenrc.add(k_); uniq.append(c)
+        sel = uniq if len(uniq) <= KR else rnd.sample(uniq, KR)
+        try: rres = run_replay([{k: v for k, v in c.items() if k != "_realcheck"} for c in sel])
+        except mirdump.DumpError as e:
+            print("INCONCLUSIVE property=%s: %s" % (pid, e)); sys.exit(2)
+        for c, r in zip(sel, rres):
+            nreal += 1
+            why = check.real_ok(c, r)
+            if why: real_violations.append(({"what": why, "case": {k: v for k, v in c.items() if k not in ("family", "_realcheck")}, "family": c["family"], "kind": "real"}, r))
+        log("real-build obligations: %d cases executed on the real build, %d failing" % (nreal, len(real_violations)))
     # confirm candidate violations on the real build, classify against known findings
     known = load_known(pid); confirmed = []; unconfirmed = []; known_hits = {}
     cases = []; seen = set()
@@ -310,6 +329,7 @@ def _main(check):
     for v, r in zip(with_case, real):
         if check.confirm(v, r): confirmed.append((v, r))
         else: unconfirmed.append((v, r))
+    confirmed += real_violations
     nocase = [v for v in cases if v.get("case") is None]
     new = []
     for v, r in confirmed:
@@ -335,7 +355,7 @@ def _main(check):
         "bounds": getattr(check, "BOUNDS", {}).get(tier, getattr(check, "BOUNDS", {})), "outside_bounds": getattr(check, "OUTSIDE", []),
         "witnesses": {k: allout[k] for k in sorted(allout)}, "partition_check": partitions,
         "source_hash": info["source_hash"], "mir_dump_s": round(info["dump_s"], 1), "nightly": info["nightly"],
-        "candidates": len(viol), "confirmed_on_real_build": len(confirmed), "not_reproduced": len(unconfirmed),
+        "real_build_obligations": nreal, "candidates": len(viol), "confirmed_on_real_build": len(confirmed), "not_reproduced": len(unconfirmed),
         "known_findings_hit": sorted(known_hits), "exhaustive": not any(s.get("truncated") for s in summ),
         "truncated_families": [s["name"] for s in summ if s.get("truncated")][:50],
         "explanation": "symbolic execution of rustc MIR (regenerated from /repo this run) with z3; every feasible path of every listed family explored; oracles discharged per path",
